@@ -222,11 +222,51 @@ def run(rep, tier):
         if len(errs) <= 6 and rng.random() < 0.5:
             wcnf_check(rep, svh, rng, text, errs)
     rep.sample({'dem': text})
+    truncated_searches(rep, svh, rng, 800 if quick else 20000)
     svh.close()
-    rep.cov['rule'] = ('random small models (<= 11 errors, 2-5 detectors, boundary edges, parallel edges with different observables, '
+    rep.cov['rule'] = ('T: hyperedge-rich models (4-7 detectors, errors of degree 1-4) under truncated hypergraph searches (size limit 2-5, '
+                       'degree limit 2-5, both settings of the symptom-increase flag): any returned set must be made of model errors, cancel all '
+                       'detection events and flip an observable. ' + 'random small models (<= 11 errors, 2-5 detectors, boundary edges, parallel edges with different observables, '
                        'cancelling duplicate targets, separators, zero-probability errors, 70 observables, repeat/shift): graphlike and '
                        'hypergraph searches vs an exhaustive minimum; truncated searches for validity; WCNF optimum by exhaustive search. '
                        'Non-trivial = a logical error exists and the minimum is >= 2.')
+
+
+def truncated_searches(rep, svh, rng, count):
+    """truncation may make the search fail or return a longer error, never an invalid one: detours around forbidden detection-event
+    sets (the search revisits helper errors) are the interesting paths"""
+    for _ in range(count):
+        nd = rng.choice([4, 5, 6, 7])
+        lines = []
+        for _ in range(rng.randint(3, 9)):
+            k = rng.choice([1, 2, 2, 3, 3, 3, 4])
+            ds = rng.sample(range(nd), min(k, nd))
+            ts = ['D%d' % d for d in ds]
+            if rng.random() < 0.3:
+                ts.append('L%d' % rng.randrange(2))
+            lines.append('error(%r) %s' % (rng.choice([0.01, 0.1, 0.25]), ' '.join(ts)))
+        if rng.random() < 0.15:
+            k = rng.randrange(len(lines))
+            lines = lines[:k] + ['repeat 2 {'] + ['    ' + l for l in lines[k:]] + ['    shift_detectors %d' % rng.choice([0, 1]), '}']
+        text = '\n'.join(lines)
+        errs = flat_errors_with_components(text)
+        fulls = set(full for p, full, comps in errs if p > 0)
+        for _ in range(4):
+            a, b, c = rng.choice([2, 3, 3, 4, 5]), rng.choice([2, 3, 4, 4, 5]), rng.random() < 0.5
+            try:
+                out = svh.request('search', ['hyper', a, b, int(c)], text)
+            except core.Crash as e:
+                rep.violation('find_undetectable_logical_error', 'crash', {'dem': text, 'truncation': [a, b, c]}, str(e) + e.stderr[-800:])
+                continue
+            ok = bool(out) and not out[-1].startswith('ERR')
+            rep.count(('c17-t', text, a, b, c), nontrivial=ok)
+            if not ok:
+                continue
+            got_syms = [full for p, full, comps in parse_result(out[1:])]
+            if not all(s in fulls for s in got_syms) or not is_undetectable_logical(got_syms):
+                rep.violation('find_undetectable_logical_error', 'wrong-result', {'dem': text, 'truncation': [a, b, c]},
+                              'truncated search returned something that is not an undetectable logical error of the model',
+                              None, [sorted(x) for x in got_syms])
 
 
 def wcnf_check(rep, svh, rng, text, errs):
